@@ -17,6 +17,8 @@ import NumbersModel.Gen.TrMerge
 import NumbersModel.Gen.TrEdit
 import NumbersModel.Gen.TrCache
 import NumbersModel.Gen.TrTok
+import NumbersModel.Gen.TrLoad
+import NumbersModel.Drv.Loader
 import NumbersModel.Drv.Tokenizer
 import NumbersModel.Drv.Addressing
 import NumbersModel.Model.DateFmt
@@ -305,6 +307,20 @@ def handlePyOps : List String → Option String
     pure (showPyM (fun (l : List Int) => " ".intercalate (l.map (fun i => s!"{i}"))) (PyT.range3 a b c))
   | _ => none
 
+/-- `loader load f <scenario>` (the request format of Drv/Loader.lean): the scripted / recorded externals go through the
+    TRANSLATED `ObjectStore.__init__`; the reply is what it leaves behind in the model's terms (`_max_id`, distinct
+    identifiers, distinct file names).  Only the variant `f` (the code as it is) has a translation. -/
+def handleTrLoader : List String → Option String
+  | "load" :: rest =>
+    match scenarioP.run rest with
+    | some ((v, x), []) =>
+      if v = Loader.fixed then
+        some (showPyM (fun (r : Unit × Int × Loader.Store) =>
+          s!"{r.2.1.toNat} {r.2.2.objs.eraseDups.length} {r.2.2.files.eraseDups.length}") (load x ()))
+      else none
+    | _ => none
+  | _ => none
+
 def trDispatch (line : String) : String :=
   let ws := (line.splitOn " ").filter (· ≠ "")
   let r : Option String := match ws with
@@ -323,6 +339,7 @@ def trDispatch (line : String) : String :=
     | "tokm" :: rest => handleTrTokMethod rest
     | "token" :: rest => handleTrToken rest
     | "tok" :: rest => handleTrTokenize rest
+    | "loader" :: rest => handleTrLoader rest
     | _ => none
   match r with
   | some s => s
